@@ -63,7 +63,8 @@ func main() {
 	}
 	cyc := sched.CycleHarness(103, true)
 	var last voteRun
-	var lastObs []int64
+	var lastObs, lastGuardIn []int64
+	var lastAsserts int64
 	h := vh.Harness{
 		Run2: func(sel int, in []int64) (mi []int64, got []int64) {
 			before := assertFailures.Load()
@@ -100,7 +101,9 @@ func main() {
 				lastObs = runEnqueueCase(in)
 				return in, []int64{1}
 			case 8:
-				lastObs = runFaultCase(in)
+				a0 := assertFailures.Load()
+				lastObs, lastGuardIn = runFaultCase(in)
+				lastAsserts = assertFailures.Load() - a0
 				return in, []int64{1}
 			}
 			modelIn, got, vr := runVotes(in)
@@ -111,6 +114,8 @@ func main() {
 			switch sel {
 			case 1:
 				cyc.Laws(sel, in, got, law)
+				// the generated cluster is inside the main theorem (in = spec ++ limits ++ choices)
+				law(121, in, "")
 				return
 			case 4:
 				law(116, lastObs, "")
@@ -126,6 +131,8 @@ func main() {
 				return
 			case 8:
 				law(103, lastObs, "")
+				law(121, lastGuardIn, "")
+				law(122, []int64{lastAsserts}, "")
 				return
 			}
 			li := last.lawInput()
@@ -198,9 +205,10 @@ func genRegressionStreams(rng *vh.Rng, n int, emit func(id string, sel int, in [
 	// allocate with a failing allocate callback ahead of the queue plugin: non-trivial when queue 1
 	// asks for more than it may have (directed half of the stream)
 	emitFault := func(id string, in []int64) {
-		emit(id, 8, in, "allocate-handler-fault/proportion/gates=default", true, map[string]any{"failingTask": in[len(in)-1]})
+		emit(id, 8, in, "allocate-handler-fault/proportion/gates=default", true, map[string]any{"failingAllocateCallback": in[len(in)-2], "refusedBind": in[len(in)-1]})
 	}
-	emitFault("fault-witness", faultSpec(8, 2, 6, 6, true))
+	emitFault("fault-witness", faultSpec(8, 2, 6, 6, true, false))
+	emitFault("fault-witness-refused-bind", faultSpec(8, 2, 6, 6, true, true))
 	for i := 0; i < n/2; i++ {
 		emitFault(fmt.Sprintf("fault-%d", i), genFaultCase(rng.Fork()))
 	}
